@@ -2,6 +2,7 @@ package h
 
 import (
 	"fmt"
+	"sort"
 
 	"github.com/netflix/rend/common"
 	"github.com/netflix/rend/handlers"
@@ -22,7 +23,9 @@ type HRes struct {
 func (r HRes) String() string {
 	if r.Class == "values" {
 		hs := ""
-		for _, h := range r.Hits {
+		sorted := append([]wire.Hit(nil), r.Hits...)
+		sort.SliceStable(sorted, func(i, j int) bool { return sorted[i].Idx < sorted[j].Idx })
+		for _, h := range sorted {
 			v := h.Val
 			if len(v) > 12 {
 				v = fmt.Sprintf("%s..(%d)", v[:12], len(v))
